@@ -120,4 +120,13 @@ PROPS = {
         "metadata, per-message compression with any supported algorithm, grammatical timeouts) -> real handler; oracle: strict decode succeeds and "
         "equals the supplied values; distinct = distinct scheduler-log hash among runs with >= 2 candidates",
         16000, 200000),
+    "C08": e2e(
+        "each run = one history of 2-5 calls (sequential on one task or interleaved on two) through ONE shared handler set and ONE shared client: "
+        "handler registration list and client accept list are independent ordered subsets of {a,b,c} plus gzip, send-compression from the client's "
+        "set, both compress-min-bytes from {0,1,8,64,512}, message sizes around the thresholds, 3 protocols x 4 kinds; some calls carry a corrupt "
+        "compressed request (bit flip, truncation, wrong algorithm, 4 MiB bomb) or receive a corrupt compressed response; optionally one operation "
+        "(Write/Close/Reset/Read) of an instrumented custom (de)compressor fails once; deterministic LIFO/FIFO pools so that the instance a failed "
+        "call returned is the next one handed out; oracle from the raw exchange via the reference codec: negotiation, preference order, encoding "
+        "header, threshold, losslessness, isolation of bad calls, instrumented instance discipline; distinct = distinct scheduler-log hash",
+        12000, 200000),
 }
